@@ -502,9 +502,94 @@ def correspond_stmts(ctx, corr):
                                            what="variable statement `%s`: %s" % (' '.join(toks), msg)))
 
 
+TAIL_SPECS = [[], [], ['noexcept'], ['noexcept', '(', 'true', ')'], ['noexcept', '(', 'noexcept', '(', 'g', '(', ')', ')', ')'], ['throw', '(', ')'],
+              ['throw', '(', 'Foo', ',', 'Bar', ')'], ['noexcept', '(', 'sizeof', '(', 'T', ')', '>', '1', ')']]
+BODIES = [['{', '}'], ['{', 'return', '0', ';', '}'], ['{', 'if', '(', 'a', '[', '0', ']', ')', '{', 'f', '(', ')', ';', '}', '}'],
+          ['{', 'x', '=', '{', '1', ',', '(', '2', ')', '}', ';', '}'], ['{', '[', '(', ']', ')', '}']]
+
+
+def real_fn_stmt(text):
+    try:
+        d = parse_string(text)
+    except (impl.CxxParseError, AssertionError, RecursionError):
+        return ('err',)
+    ns = d.namespace
+    if len(ns.functions) != 1 or ns.variables or ns.typedefs or ns.classes or ns.using_alias or ns.enums or ns.forward_decls or ns.method_impls:
+        return ('other',)
+    f = ns.functions[0]
+    if (f.constexpr or f.extern or f.static or f.inline or f.has_trailing_return or f.template or f.msvc_convention or f.operator
+            or f.raw_requires or len(f.name.segments) != 1):
+        return ('other',)
+    try:
+        ps = []
+        for p in f.parameters:
+            if p.default is not None or p.param_pack:
+                return ('other',)
+            ps.append((decl.from_real(p.type), p.name))
+        t = ('F', decl.from_real(f.return_type), tuple(ps), f.vararg)
+    except decl.Unrepresentable:
+        return ('other',)
+    val = lambda v: None if v is None else tuple(x.value for x in v.tokens)
+    return ('ok', f.name.segments[0].name, t, val(f.throw), val(f.noexcept), f.has_body, f.deleted)
+
+
+def correspond_fn_stmts(ctx, corr):
+    rng = ctx.rng
+    cases = []
+    for _ in range(ctx.scale(700, 14000)):
+        toks, t = gen_fn_stmt(rng)
+        head = toks[:-1]
+        spec = list(rng.choice(TAIL_SPECS))
+        r = rng.random()
+        end = [';'] if r < 0.5 else (list(rng.choice(BODIES)) if r < 0.8 else ['=', 'delete', ';'])
+        stmt = head + spec + end
+        cases.append(stmt)
+        if rng.random() < 0.3:
+            cases.append(c02.mutate(rng, stmt))
+    lines, nms = [], []
+    for toks in cases:
+        names = decl.Names()
+        lines.append([90] + decl.enc_tokens(toks, names))
+        nms.append(names)
+    outs = run_driver(lines)
+    for toks, o, names in zip(cases, outs, nms):
+        corr.cases += 1
+        if o[0] == 0:
+            ln = o[3]
+            t, _ = decl.dec_type(o, 4, names)
+            i = 4 + ln
+
+            def opt(i):
+                if o[i] == 0:
+                    return None, i + 1
+                n = o[i + 1]
+                vals = tuple(names.rev[o[i + 2 + 2 * j + 1]] if o[i + 2 + 2 * j + 1] else impl.TT[o[i + 2 + 2 * j]] for j in range(n))
+                return vals, i + 2 + 2 * n
+            th, i = opt(i)
+            ne, i = opt(i)
+            m = ('ok', names.rev.get(o[1], '?'), t, th, ne, bool(o[i]), bool(o[i + 1]), o[2])
+        else:
+            m = ('err', o[1])
+        r = real_fn_stmt(' '.join(toks))
+        key = "fnstmt:" + (m[0] if m[0] == 'ok' else 'err%d' % m[1]) + "/" + r[0]
+        corr.dist[key] = corr.dist.get(key, 0) + 1
+        msg = None
+        if m[0] == 'ok' and m[7] == 0:
+            if r[0] == 'err':
+                msg = "model decodes the function statement but the implementation rejects it"
+            elif r[0] == 'ok' and tuple(r) != tuple(m[:7]):
+                msg = "model %s; implementation %s" % (m[:7], r)
+        elif m[0] == 'err' and m[1] in (1, 2, 3) and r[0] == 'ok':
+            msg = "model rejects (code %d) but the implementation reports %s" % (m[1], r)
+        if msg:
+            corr.disagreements.append(dict(case=dict(kind='corr-fnstmt', tokens=toks), model=str(m)[:300], impl=str(r)[:300],
+                                           what="function statement `%s`: %s" % (' '.join(toks), msg)))
+
+
 def correspond(ctx):
     corr = Corr()
     rng = ctx.rng
+    correspond_fn_stmts(ctx, corr)
     correspond_stmts(ctx, corr)
     correspond_fns(ctx, corr)
     correspond_enums(ctx, corr)
